@@ -11,6 +11,7 @@ package dtls
 
 import (
 	"bytes"
+	"context"
 	"crypto"
 	"crypto/ecdsa"
 	"crypto/ed25519"
@@ -39,6 +40,7 @@ import (
 	"github.com/pion/dtls/v3/internal/verifhook"
 	ref "github.com/pion/dtls/v3/internal/zzverifref"
 	"github.com/pion/dtls/v3/pkg/protocol/handshake"
+	"github.com/pion/dtls/v3/pkg/protocol/recordlayer"
 )
 
 // vfFlightScript rewrites the flights of one connection (keyed by its handshake config).
@@ -236,8 +238,15 @@ func vfForgedSchemeChain(chain tls.Certificate) tls.Certificate {
 // victim's names, and its own key) followed by the victim's genuine certificate: every check that looks at
 // "a certificate of the chain" instead of the leaf is offered something valid to look at.
 func vfOwnLeafPlusVictimCert(victim tls.Certificate, dns string) tls.Certificate {
+	return vfOwnCertPlusVictimCert(victim, dns, false)
+}
+
+// vfOwnCertPlusVictimCert: with ca set the rogue's own self-signed certificate is flagged as a CA certificate, so that
+// code which looks for "the end-entity certificate of the chain" by that flag lands on the victim's.
+func vfOwnCertPlusVictimCert(victim tls.Certificate, dns string, ca bool) tls.Certificate {
 	k, _ := ecdsa.GenerateKey(elliptic.P256(), rand.Reader)
 	tmpl := &x509.Certificate{
+		IsCA: ca, BasicConstraintsValid: ca,
 		SerialNumber: big.NewInt(777), Subject: pkix.Name{CommonName: "vf-rogue-selfsigned"}, DNSNames: []string{dns},
 		NotBefore: time.Date(1999, 6, 1, 0, 0, 0, 0, time.UTC), NotAfter: time.Date(2099, 1, 1, 0, 0, 0, 0, time.UTC),
 		KeyUsage: x509.KeyUsageDigitalSignature, ExtKeyUsage: []x509.ExtKeyUsage{x509.ExtKeyUsageServerAuth, x509.ExtKeyUsageClientAuth},
@@ -317,6 +326,7 @@ func vfC03Rows() []vfC03Row {
 						add("expires-between-connections", exp("reject", "accept"))
 						add("victim-chain-forged-digestless-scheme", "reject")
 						add("own-selfsigned-leaf-plus-victim-cert", exp("reject", "accept"))
+						add("own-selfsigned-ca-cert-plus-victim-cert", exp("reject", "accept"))
 						add("unknown-ca", exp("reject", "accept"))
 						add("wrong-name", exp("reject", "accept"))
 						add("expired", exp("reject", "accept"))
@@ -340,9 +350,9 @@ func vfC03Rows() []vfC03Row {
 				case RequireAnyClientCert:
 					table = map[string]string{"none": "reject", "valid": "accept", "unknown-ca": "accept", "expired": "accept", "stolen-chain-own-key": "reject", "omit-certificate-verify": "reject", "omit-certificate": "reject", "victim-chain-forged-digestless-scheme": "reject"}
 				case VerifyClientCertIfGiven:
-					table = map[string]string{"none": "accept", "valid": "accept", "unknown-ca": "reject", "expired": "reject", "stolen-chain-own-key": "reject", "omit-certificate-verify": "reject", "own-selfsigned-leaf-plus-victim-cert": "reject", "victim-chain-forged-digestless-scheme": "reject", "expires-between-connections": "reject", "key-usage-of-the-other-role": "reject"}
+					table = map[string]string{"none": "accept", "valid": "accept", "unknown-ca": "reject", "expired": "reject", "stolen-chain-own-key": "reject", "omit-certificate-verify": "reject", "own-selfsigned-leaf-plus-victim-cert": "reject", "own-selfsigned-ca-cert-plus-victim-cert": "reject", "victim-chain-forged-digestless-scheme": "reject", "expires-between-connections": "reject", "key-usage-of-the-other-role": "reject"}
 				case RequireAndVerifyClientCert:
-					table = map[string]string{"none": "reject", "valid": "accept", "unknown-ca": "reject", "expired": "reject", "stolen-chain-own-key": "reject", "omit-certificate-verify": "reject", "omit-certificate": "reject", "own-selfsigned-leaf-plus-victim-cert": "reject", "victim-chain-forged-digestless-scheme": "reject", "expires-between-connections": "reject", "key-usage-of-the-other-role": "reject"}
+					table = map[string]string{"none": "reject", "valid": "accept", "unknown-ca": "reject", "expired": "reject", "stolen-chain-own-key": "reject", "omit-certificate-verify": "reject", "omit-certificate": "reject", "own-selfsigned-leaf-plus-victim-cert": "reject", "own-selfsigned-ca-cert-plus-victim-cert": "reject", "victim-chain-forged-digestless-scheme": "reject", "expires-between-connections": "reject", "key-usage-of-the-other-role": "reject"}
 				}
 				for dev, e := range table {
 					ks := []string{"ecdsa"}
@@ -369,7 +379,7 @@ func vfC03Rows() []vfC03Row {
 	// An application callback that has no objection must not replace the library's own verdict: every row whose
 	// outcome rests on chain verification is repeated with a permissive VerifyPeerCertificate on the honest side.
 	chainDevs := map[string]bool{"control": true, "valid": true, "unknown-ca": true, "wrong-name": true, "expired": true, "expires-between-connections": true, "key-usage-of-the-other-role": true,
-		"own-selfsigned-leaf-plus-victim-cert": true, "ip-name-cert-for-other-name": true, "stolen-chain-own-key": true}
+		"own-selfsigned-leaf-plus-victim-cert": true, "own-selfsigned-ca-cert-plus-victim-cert": true, "ip-name-cert-for-other-name": true, "stolen-chain-own-key": true}
 	for _, r := range append([]vfC03Row(nil), rows...) {
 		if r.PSK || !chainDevs[r.Dev] || r.Kind != "ecdsa" || !r.Verify || r.Variant != "plain" {
 			continue
@@ -465,6 +475,8 @@ func vfC03Run(t *testing.T, res *vfResult, row vfC03Row) {
 				serverCert = vfForgedSchemeChain(serverCert)
 			case "own-selfsigned-leaf-plus-victim-cert":
 				serverCert = vfOwnLeafPlusVictimCert(serverCert, vfServerName)
+			case "own-selfsigned-ca-cert-plus-victim-cert":
+				serverCert = vfOwnCertPlusVictimCert(serverCert, vfServerName, true)
 			case "omit-certificate":
 				script.Omit[handshake.TypeCertificate] = true
 			case "omit-server-key-exchange":
@@ -493,6 +505,8 @@ func vfC03Run(t *testing.T, res *vfResult, row vfC03Row) {
 				clientCert = vfForgedSchemeChain(clientCert)
 			case "own-selfsigned-leaf-plus-victim-cert":
 				clientCert = vfOwnLeafPlusVictimCert(clientCert, "vf.client.example")
+			case "own-selfsigned-ca-cert-plus-victim-cert":
+				clientCert = vfOwnCertPlusVictimCert(clientCert, "vf.client.example", true)
 			case "omit-certificate-verify":
 				script.Omit[handshake.TypeCertificateVerify] = true
 			case "omit-certificate":
@@ -827,6 +841,85 @@ func vfC03PSKPolicyUnder13(t *testing.T, res *vfResult, clientVer string) {
 	synctest.Wait()
 }
 
+// vfC03AckOnlyClient: a DTLS 1.3 client that went through the key exchange (no credential is needed for that) withholds
+// its Certificate / CertificateVerify / Finished and sends a single ACK, protected under the handshake keys, that names
+// every record of the server's flight. An acknowledgement proves nothing: the server must not report success.
+func vfC03AckOnlyClient(t *testing.T, res *vfResult, policy ClientAuthType, withCert bool) {
+	pki := vfGetPKI()
+	res.Eval(1)
+	id := fmt.Sprintf("ack-only-client/policy%d/cert=%v", policy, withCert)
+	cO := append(vfV13(), WithInsecureSkipVerify(true))
+	if withCert {
+		cO = append(cO, WithCertificates(pki.Leaf("ecdsa", "client-rogueca")))
+	}
+	sO := append(vfV13(), WithCertificates(pki.Leaf("ecdsa", "server")))
+	so := append(vfSO(sO...), WithClientAuth(policy), WithClientCAs(pki.Pool))
+	n := vfNewNet()
+	p, err := vfNewPair(n, vfCO(cO...), so)
+	if err != nil {
+		res.Count("config_rejected", 1)
+
+		return
+	}
+	var mu sync.Mutex
+	dropped := 0
+	sawProtected := make(chan struct{})
+	n.SetOnSend(func(n *vfNet, w *vfWire) {
+		if w.From == "c" && len(w.Data) > 0 && w.Data[0]&0xe0 == 0x20 {
+			mu.Lock()
+			dropped++
+			if dropped == 1 {
+				close(sawProtected)
+			}
+			mu.Unlock()
+
+			return // everything the client protects by itself is lost
+		}
+		n.Deliver(w.Dst, w.Data, vfAddrOf(w.From))
+	})
+	ctx, cancel := context.WithTimeout(context.Background(), 30*time.Second)
+	defer cancel()
+	var wg sync.WaitGroup
+	wg.Add(2)
+	go func() { defer wg.Done(); p.C.Err = p.C.Conn.HandshakeContext(ctx) }()
+	go func() { defer wg.Done(); p.S.Err = p.S.Conn.HandshakeContext(ctx) }()
+	select {
+	case <-sawProtected:
+		records := make([]protocol.RecordNumber, 0, 16)
+		for seq := uint64(0); seq < 16; seq++ {
+			records = append(records, protocol.RecordNumber{Epoch: 2, SequenceNumber: seq})
+		}
+		ack := &dtlsflight.Packet{
+			Record:        &recordlayer.RecordLayer{Header: recordlayer.Header{Version: protocol.Version1_2, Epoch: 2}, Content: &protocol.ACK{Records: records}},
+			ShouldEncrypt: true,
+		}
+		p.C.Conn.writeLock.Lock()
+		dgs, _, aerr := p.C.Conn.prepareRawPacketsTracked([]*dtlsflight.Packet{ack})
+		p.C.Conn.writeLock.Unlock()
+		if aerr != nil {
+			res.Count("ack_only_client_ack_not_built", 1)
+		}
+		for _, d := range dgs {
+			n.Deliver(vfServerAddr, d.raw, vfAddr(vfClientAddr))
+		}
+		res.Count("ack_only_client_acks_sent", int64(len(dgs)))
+	case <-ctx.Done():
+	}
+	wg.Wait()
+	res.NonTrivial(id)
+	if p.S.Err == nil {
+		st, _ := p.S.Conn.ConnectionState()
+		res.Violate(fmt.Sprintf("C03:accepted-without-credential:v13:rogue-c:ack-only-client:policy%d", policy),
+			fmt.Sprintf("%s: the server reported a successful handshake (peer certificates: %d) although the client's Certificate, CertificateVerify and Finished never arrived: one ACK under the handshake keys was enough", id, len(st.PeerCertificates)),
+			map[string]any{"ack_only": id})
+	} else {
+		res.Count("ack_only_client_refused", 1)
+	}
+	n.SetOnSend(nil)
+	p.Close()
+	synctest.Wait()
+}
+
 func TestVF_C03(t *testing.T) {
 	vfGetPKI()
 	vfInstallFilter()
@@ -861,6 +954,8 @@ func TestVF_C03(t *testing.T) {
 	vfBubbles(t, len(names), func(t *testing.T, i int) { vfC03ResumeOtherName(t, res, names[i][0], names[i][1]) })
 	pv := []string{"dual", "13", "dual-default-suites"}
 	vfBubbles(t, len(pv), func(t *testing.T, i int) { vfC03PSKPolicyUnder13(t, res, pv[i]) })
+	aoc := []ClientAuthType{NoClientCert, RequireAnyClientCert, RequireAndVerifyClientCert, VerifyClientCertIfGiven}
+	vfBubbles(t, len(aoc)*2, func(t *testing.T, i int) { vfC03AckOnlyClient(t, res, aoc[i/2], i%2 == 1) })
 	res.Exhaustive = true
 	res.Floor("rejected_as_required", 40)
 	res.Floor("accepted_as_required", 30)
